@@ -7,7 +7,8 @@
 From Coq Require Import ZArith NArith List Bool.
 From PydoctorVerif Require Import Base.Sexp Base.PyExpr Gen.TablesC15 Model.StrEsc Model.Wrap Spec.PyGrammar Spec.PyLex
      Spec.PyTokenizer Model.ExprPrint Proofs.PyGrammarProofs Proofs.PyGrammarFuel Proofs.WrapProofs Proofs.StrEscProofs
-     Proofs.TokenizerProofs Proofs.ExprPrintProofs Proofs.DisplayProofs Proofs.ReCallProofs.
+     Proofs.TokenizerProofs Proofs.ExprPrintProofs Proofs.DisplayProofs Proofs.ReCallProofs
+     Model.DelimIR Gen.DelimCode Proofs.DelimIRProofs.
 Import ListNotations.
 
 (* Tables.prec_wf, on the precedence table as pydoctor sees it NOW (astor.op_util): for every parent context and every
@@ -290,3 +291,28 @@ Theorem C15_re_unpack_dropped_refuted :
     flat (generic_call re_compile_name args kws)
     = [114; 101; 46; 99; 111; 109; 112; 105; 108; 101; 40; 39; 97; 39; 44; 32; 42; 42; 107; 41]%N.
 Proof. do 3 eexists. vm_compute. repeat split. Qed.
+
+(* ---------------------------------------------------------------------------------------------------------------
+   The tie to the SOURCE of the parenthesis decision.  Gen/DelimCode.v is regenerated on every run by
+   harness/gen/gen_c15_code.py from the current text of _OperatorDelimiter.__init__ (and of every pydoctor function or
+   method it calls, inlined), statement by statement, into the small language of Model/DelimIR.v.  Interpreting THAT code,
+   for every operator `o` of the node and every situation (no parent; a parent that is not an expression; operand of a
+   unary operator; left or right operand of each binary operator; value of a boolean operator; child of any other
+   expression / keyword / comprehension, with or without an explicit precedence p), leaves self.discard equal to the
+   negation of the hand-written decision needs_paren the theorems above are about; __exit__ (pinned by the translator)
+   adds the parentheses exactly when `not self.discard`. *)
+Theorem C15_code_init_is_model :
+  forall (o : opk) (sit : situation),
+    init_discard o sit delim_init_code = Some (negb (needs_paren (pctx_of sit) o)).
+Proof. exact init_is_model. Qed.
+
+(* The dispatch of _colorize_ast (observed on the live code for one node of every class): the model wraps the output
+   calls of a node in the delimiter exactly for the classes for which the code constructs _OperatorDelimiter(self, state,
+   node) -- unary, binary and boolean operators -- and then with that decision. *)
+Theorem C15_code_dispatch_is_model :
+  forall (pc : pctx) (e : expr),
+    is_delim (compile pc e) = code_delimited (nodecls_of e)
+    /\ (forall u x, e = EUn u x -> exists c, compile pc e = CDelim (needs_paren pc (OU u)) c)
+    /\ (forall b l r, e = EBin b l r -> exists c, compile pc e = CDelim (needs_paren pc (OB b)) c)
+    /\ (forall o es, e = EBool o es -> exists c, compile pc e = CDelim (needs_paren pc (OO o)) c).
+Proof. exact dispatch_is_model. Qed.
